@@ -87,6 +87,14 @@ pub trait Subject: Clone + Eq + std::fmt::Debug {
     fn add(&mut self, u: usize, v: usize, w: i64);
     fn remove(&mut self, u: usize, v: usize) -> bool;
     fn toggle(&mut self, _u: usize, _v: usize) {}
+    /// complement() where the representation has one
+    fn complemented(&self) -> Option<Self> {
+        None
+    }
+    /// union() where the representation has one
+    fn united(&self, _other: &Self) -> Option<Self> {
+        None
+    }
     fn start(s: &Start) -> (Self, Option<M>);
     fn fresh(m: &M) -> Self;
 }
@@ -125,6 +133,12 @@ macro_rules! unweighted_subject {
             }
             fn toggle(&mut self, u: usize, v: usize) {
                 toggle_impl(self, u, v);
+            }
+            fn complemented(&self) -> Option<Self> {
+                Some(graaf::Complement::complement(self))
+            }
+            fn united(&self, other: &Self) -> Option<Self> {
+                Some(graaf::Union::union(self, other))
             }
             fn start(s: &Start) -> (Self, Option<M>) {
                 let n = s.order.max(1);
@@ -442,7 +456,12 @@ pub fn compare<S: Subject>(g: &S, m: &M, full_pairs: bool, what: &str) -> Verdic
         );
     }
     if full_pairs {
-        let mut ids: Vec<usize> = m.vertices();
+        let all = m.vertices();
+        let mut ids: Vec<usize> = if all.len() > 200 {
+            gen::sample_ids(all.len(), m.size()).into_iter().map(|i| all[i]).collect()
+        } else {
+            all
+        };
         let mut extra = m.v.iter().next_back().map_or(0, |x| x + 1);
         ids.push(extra);
         extra += 1;
@@ -732,17 +751,50 @@ impl Prop for C01 {
     ];
 
     fn legs(tier: Tier) -> Vec<Leg> {
-        vec![Leg {
-            name: "random",
-            kind: LegKind::Random {
-                cases: tier.pick(12000, 100000),
+        vec![
+            Leg {
+                name: "random",
+                kind: LegKind::Random {
+                    cases: tier.pick(12000, 100000),
+                },
+                workers: 16,
+                build: Build::Normal,
             },
-            workers: 16,
-            build: Build::Normal,
-        }]
+            Leg {
+                name: "huge",
+                kind: LegKind::Random {
+                    cases: tier.pick(6, 60),
+                },
+                workers: 16,
+                build: Build::Normal,
+            },
+        ]
     }
 
-    fn strategy(_leg: &str, tier: Tier) -> BoxedStrategy<Case> {
+    fn strategy(leg: &str, tier: Tier) -> BoxedStrategy<Case> {
+        if leg == "huge" {
+            // histories on digraphs of several hundred to a few thousand vertices
+            return (0..6_u8, gen::huge_dg(), any::<u8>(), any::<u64>(), vec(op_strategy(), 0..=30))
+                .prop_map(|(repr, (g, _), via, seed, raw_ops)| {
+                    let n = g.order;
+                    let mut c = case_from_raw(repr, n, 0, 0, seed, &[], raw_ops);
+                    c.start.arcs = g.arcs;
+                    c.start.via = [0, 0, 1, 2][via as usize % 4];
+                    // half of the operations are re-aimed at the last rows / columns
+                    for (i, op) in c.ops.iter_mut().enumerate() {
+                        if i % 2 == 0 {
+                            let near = |x: usize| if x < n { n - 1 - (x % 7).min(n - 1) } else { x };
+                            *op = match op.clone() {
+                                Op::Add(u, v, w) => Op::Add(near(u), v, w),
+                                Op::Remove(u, v) => Op::Remove(u, near(v)),
+                                Op::Toggle(u, v) => Op::Toggle(near(u), near(v)),
+                            };
+                        }
+                    }
+                    c
+                })
+                .boxed();
+        }
         let max_order = tier.pick(24, 70);
         let max_ops = tier.pick(40, 120);
         (
